@@ -256,6 +256,7 @@ func runC35(r *core.R) {
 		depth = 3
 	}
 	api.DisableConfigDir()
+	c35KeyRoundTrips(r)
 	ops := c35ops()
 	r.Note("operations", len(ops))
 	dir := core.Scratch("c35")
@@ -386,4 +387,50 @@ func runC35(r *core.R) {
 	r.Count("transitions", transitions)
 	r.Note("traces_validated_against_impl", transitions)
 	r.Note("depth", depth)
+}
+
+
+// c35KeyRoundTrips: every key / value of a hazard alphabet individually: add -> list shows exactly that pair ->
+// remove by the same key -> gone (and the other pair untouched). Refusals of a key are counted, not judged.
+func c35KeyRoundTrips(r *core.R) {
+	base := docgen.Marked(2, 0)
+	hazards := append([]string{"A#20B", "a#b", "#", "##", "#zz", "a b", "x/y", "(k)", "Ключ", "k\x00"}, c21Hazards...)
+	conf := func() *model.Configuration { return newConf() }
+	for _, h := range hazards {
+		for _, asKey := range []bool{true, false} {
+			k, v := "Plain", h
+			if asKey {
+				k, v = h, "plain value"
+			}
+			r.Eval(1)
+			rep := map[string]any{"key": k, "value": v}
+			var d1, d2, d3 bytes.Buffer
+			if err := api.AddProperties(bytes.NewReader(base), &d1, map[string]string{"Other": "kept"}, conf()); err != nil {
+				r.HarnessError("add Other: %v", err)
+				return
+			}
+			if err := api.AddProperties(bytes.NewReader(d1.Bytes()), &d2, map[string]string{k: v}, conf()); err != nil {
+				r.Count("property_refused", 1)
+				continue
+			}
+			r.Nontrivial(1)
+			ps, err := api.Properties(bytes.NewReader(d2.Bytes()), conf())
+			if err != nil {
+				r.Violation("property:unreadable-after-add", fmt.Sprintf("after AddProperties(%q=%q) the document cannot be listed: %v", k, v, err), rep)
+				continue
+			}
+			if ps[k] != v || ps["Other"] != "kept" || len(ps) != 2 {
+				r.Violation("property:add-list-mismatch", fmt.Sprintf("after AddProperties(%q=%q) the properties are %q", k, v, ps), rep)
+				continue
+			}
+			if err := api.RemoveProperties(bytes.NewReader(d2.Bytes()), &d3, []string{k}, conf()); err != nil {
+				r.Violation("property:remove-failed", fmt.Sprintf("RemoveProperties(%q) after adding it: %v", k, err), rep)
+				continue
+			}
+			ps, err = api.Properties(bytes.NewReader(d3.Bytes()), conf())
+			if err != nil || len(ps) != 1 || ps["Other"] != "kept" {
+				r.Violation("property:remove-list-mismatch", fmt.Sprintf("after removing %q the properties are %q (err %v)", k, ps, err), rep)
+			}
+		}
+	}
 }
